@@ -650,6 +650,8 @@ func init() {
 				{accepted: 1, unaccepted: 0, late: true, bound: b},
 				{accepted: 0, unaccepted: 0, lateNew: true, bound: b},
 				{accepted: 1, unaccepted: 0, lateNew: true, bound: b},
+				// a never-seen remote's first datagram races with the listener's Close AND a pending Accept
+				{accepted: 0, unaccepted: 0, lateNew: true, pendingAccept: true, bound: b},
 			}
 			if tier == "thorough" {
 				// unbounded (closed by the state cache) for the smallest lifecycles
